@@ -300,7 +300,7 @@ class _VersionIndependentUnmarshaller:
     def t_long(self, save_ref, bytes_for_s=False):
         n = unpack("<i", self.fp.read(4))[0]
         if n == 0:
-            return long(0) if self.has_long_type else 0
+            return self.r_ref(long(0) if self.has_long_type else 0, save_ref)
         size = abs(n)
         # Eight 15-bit digits are exactly 15 bytes. Packing groups of digits
         # into bytes and converting once is linear in the number of digits;
